@@ -44,6 +44,7 @@ var (
 	fastNewMockerFn func(job JobCfg, cfg moq.Config) (*moq.Mocker, error)
 	fastRealFindFn  func(pkgFlag, srcPath string) string
 	fastFindFn      func(pkgFlag, srcPath string) string
+	fastFixedPointFn func(job JobCfg, res *Result)
 )
 
 // newMocker is moq.New, or - in fast mode - the overlay hook over an in-memory load.
@@ -102,6 +103,9 @@ func doJob(job JobCfg, fmts []string, facts, oracle bool) Result {
 	if oracle {
 		runOracles(job, &res)
 		checkWriter(job, &res)
+		if fastOn && fastFixedPointFn != nil {
+			fastFixedPointFn(job, &res)
+		}
 	}
 	return res
 }
